@@ -91,12 +91,12 @@ static inline std::string WhatName(uint32_t w)
 }
 
 // ------------------------------------------------------------------------------------------------ PR_NAME_KEYS shapes
-enum KeyShape { K_ABSENT = 0, K_STAR, K_ABS3, K_LIT, K_TWO, K_DEEP, K_LONG, K_PAREN, K_BRACKET, K_BACKSLASH, K_TILDE, K_RANGE, K_EMPTY, K_SLASH, K_SESSION, K_INT32, K_MSG, NUM_KEYSHAPES };
+enum KeyShape { K_ABSENT = 0, K_STAR, K_ABS3, K_LIT, K_TWO, K_DEEP, K_LONG, K_PAREN, K_BRACKET, K_BACKSLASH, K_TILDE, K_RANGE, K_EMPTY, K_SLASH, K_SESSION, K_BACKTICK, K_TILDE_BACKTICK, K_INT32, K_MSG, NUM_KEYSHAPES };
 static inline std::string LongClause() { return "v" + std::string(299, '*'); }   // 300 characters, matches every name that starts with v
 static inline const char * KeyName(int k)
 {
    static const char * n[NUM_KEYSHAPES] = { "", "keys=*", "keys=/*/*/*", "keys=x", "keys=[x,vx]", "keys=/*/*/*/*", "keys=v***(300 chars)", "keys=(", "keys=[", "keys=\\", "keys=~", "keys=<->", "keys=''", "keys=/", "keys=/*/*",
-                                           "keys:int32", "keys:Message" };
+                                           "keys=`", "keys=~`", "keys:int32", "keys:Message" };
    return n[k];
 }
 static inline int AddKeyShape(Message & m, int k)   // returns the number of string keys added
@@ -117,6 +117,8 @@ static inline int AddKeyShape(Message & m, int k)   // returns the number of str
       case K_EMPTY: (void) m.AddString(PR_NAME_KEYS, ""); return 1;
       case K_SLASH: (void) m.AddString(PR_NAME_KEYS, "/"); return 1;
       case K_SESSION: (void) m.AddString(PR_NAME_KEYS, "/*/*"); return 1;                                    // the session nodes themselves
+      case K_BACKTICK: (void) m.AddString(PR_NAME_KEYS, "`"); return 1;                                       // the raw-regex prefix followed by an EMPTY regular expression
+      case K_TILDE_BACKTICK: (void) m.AddString(PR_NAME_KEYS, "~`"); return 1;                                // ... negated
       case K_INT32: (void) m.AddInt32(PR_NAME_KEYS, 7); return 0;                                             // wrong type
       case K_MSG: (void) m.AddMessage(PR_NAME_KEYS, l1::Noop()); return 0;                                    // wrong type (right type for BATCH: one NOOP)
       default: break;
